@@ -177,8 +177,10 @@ def spherical_conformal_map(tria, use_cholmod=False):
         if np.isnan(np.sum(mapping)):
             mapping = P  # use the old result
 
-    # inverse south pole stereographic projection
+    # inverse south pole stereographic projection (z is negated compared
+    # to the inverse north pole projection, otherwise the result is mirrored)
     mapping = inverse_stereographic(mapping)
+    mapping[:, 2] = -mapping[:, 2]
     return mapping
 
 
